@@ -17,12 +17,14 @@ inductive Rel where
   | eq | ne | lt | le | gt | ge
   | tt | ff      -- constant True / False
   | ni           -- returns NotImplemented
+  | boom         -- raises (an exception of a class chosen by the harness: KeyError, StopIteration, TypeError, a BaseException subclass …)
   deriving DecidableEq, Repr, FromJson, ToJson, Inhabited
 
 /-- outcome of a method call or of an operator -/
 inductive R where
   | T | F | NI
   | typeError | attributeError | valueError
+  | raised       -- the very exception object raised by a supplied function came out
   | other
   deriving DecidableEq, Repr, FromJson, ToJson, Inhabited
 
@@ -44,6 +46,7 @@ def Rel.eval : Rel → Int → Int → R
   | .tt, _, _ => .T
   | .ff, _, _ => .F
   | .ni, _, _ => .NI
+  | .boom, _, _ => .raised
 
 /-- the six rich comparisons -/
 inductive Op where
@@ -71,6 +74,9 @@ structure Case where
   a : Int
   b : Int
   rhs : Rhs
+  /-- the supplied functions are partial: they raise when the two payloads are not of the same class
+      (like `lambda a, b: a.lower() == b.lower()` on a non-str) -/
+  partialFns : Bool
   deriving DecidableEq, Repr, FromJson, ToJson, Inhabited
 
 inductive CtorRes where
@@ -83,6 +89,10 @@ structure Obs where
   hashNone : Bool         -- `cls.__hash__ is None`
   direct   : List R       -- `type(x).__op__(x, y)` for eq ne lt le gt ge
   ops      : List R       -- `x op y`
+  /-- the calls of supplied functions made by each of the twelve evaluations above, in order:
+      `slot(self.value,other.value)` -/
+  directCalls : List (List String)
+  opCalls     : List (List String)
   deriving DecidableEq, Repr, FromJson, ToJson, Inhabited
 
 /-- an operand -/
@@ -119,16 +129,37 @@ def ctorFails (c : Case) : Bool := 0 < numOrd c && numOrd c < 4 && c.eq.isNone
 /-- `total_ordering` is applied -/
 def totalOrdering (c : Case) : Bool := 0 < numOrd c && numOrd c < 4
 
+/-- what the supplied function `r` does when it is called on the two payloads -/
+def fnRes (c : Case) (r : Rel) (self other : Opd) : R :=
+  if c.partialFns && other.ty != self.ty then .raised else r.eval self.val other.val
+
 /-- `_make_operator(name, func)`'s `method(self, other)` for a cmp_using object `self` -/
 def method (c : Case) (r : Rel) (self other : Opd) : R :=
   if c.requireSameType then
     -- `_is_comparable_to` → `_check_same_type`: other.value.__class__ is self.value.__class__
     if !other.cmpObj then .attributeError
     else if other.ty != self.ty then .NI
-    else r.eval self.val other.val
+    else fnRes c r self other
   else
     if !other.cmpObj then .attributeError      -- func(self.value, other.value)
-    else r.eval self.val other.val
+    else fnRes c r self other
+
+def Op.name : Op → String
+  | .eq => "eq" | .ne => "ne" | .lt => "lt" | .le => "le" | .gt => "gt" | .ge => "ge"
+
+/-- the record an instrumented supplied function leaves when called -/
+def callEv (op : Op) (self other : Opd) : String :=
+  op.name ++ "(" ++ toString self.val ++ "," ++ toString other.val ++ ")"
+
+/-- calls made by `method`: the function is called (once, with `self.value, other.value`) only after the
+    comparability check has passed -/
+def methodLog (c : Case) (op : Op) (self other : Opd) : List String :=
+  if c.requireSameType then
+    if !other.cmpObj then []
+    else if other.ty != self.ty then []
+    else [callEv op self other]
+  else
+    if !other.cmpObj then [] else [callEv op self other]
 
 /-- `type(self).__eq__(self, other)`; without `eq` it is `object.__eq__` on two distinct objects -/
 def dunderEq (c : Case) (self other : Opd) : R :=
@@ -252,13 +283,80 @@ def oper (c : Case) (op : Op) (x y : Opd) : R :=
       | r => r
     | r => r
 
+/-! ### which supplied functions get called, and in which order -/
+
+def dunderEqLog (c : Case) (self other : Opd) : List String :=
+  match c.eq with
+  | some _ => methodLog c .eq self other
+  | none => []
+
+/-- `__ne__` calls `self.__eq__(other)` -/
+def dunderNeLog (c : Case) (self other : Opd) : List String := dunderEqLog c self other
+
+def opEqLog (c : Case) (x y : Opd) : List String :=
+  dunderEqLog c x y ++
+    (match dunderEq c x y with
+     | .NI => if y.cmpObj then dunderEqLog c y x else []
+     | _ => [])
+
+def opNeLog (c : Case) (x y : Opd) : List String :=
+  dunderNeLog c x y ++
+    (match dunderNe c x y with
+     | .NI => if y.cmpObj then dunderNeLog c y x else []
+     | _ => [])
+
+/-- the operators a derived body evaluates after the root, given the root's boolean result (short-circuit) -/
+def derivLog (d : Deriv) (res : Bool) (eqLog neLog : List String) : List String :=
+  match d with
+  | .notAndNe => if res then [] else neLog
+  | .orEq => if res then [] else eqLog
+  | .not => []
+  | .notOrEq => if res then eqLog else []
+  | .andNe => if res then neLog else []
+
+def dunderOrdLog (c : Case) (op : Op) (self other : Opd) : List String :=
+  match slot c op with
+  | some _ => methodLog c op self other
+  | none =>
+    if totalOrdering c then
+      match root c with
+      | none => []
+      | some rt =>
+        match slot c rt, convert rt op with
+        | some rr, some d =>
+          methodLog c rt self other ++
+            (match method c rr self other with
+             | .T => derivLog d true (opEqLog c self other) (opNeLog c self other)
+             | .F => derivLog d false (opEqLog c self other) (opNeLog c self other)
+             | _ => [])
+        | _, _ => []
+    else []
+
+def dunderLog (c : Case) (op : Op) (self other : Opd) : List String :=
+  match op with
+  | .eq => dunderEqLog c self other
+  | .ne => dunderNeLog c self other
+  | op => dunderOrdLog c op self other
+
+def operLog (c : Case) (op : Op) (x y : Opd) : List String :=
+  match op with
+  | .eq => opEqLog c x y
+  | .ne => opNeLog c x y
+  | op =>
+    dunderOrdLog c op x y ++
+      (match dunderOrd c op x y with
+       | .NI => if y.cmpObj then dunderOrdLog c op.swap y x else []
+       | _ => [])
+
 def model (c : Case) : Obs :=
   if ctorFails c then
-    { ctor := .valueError, name := "", hashNone := false, direct := [], ops := [] }
+    { ctor := .valueError, name := "", hashNone := false, direct := [], ops := [], directCalls := [], opCalls := [] }
   else
     { ctor := .ok, name := c.className,
       hashNone := c.eq.isSome,            -- `__eq__` in the class body without `__hash__`
       direct := Op.all.map (fun op => dunder c op (leftOpd c) (rightOpd c)),
-      ops := Op.all.map (fun op => oper c op (leftOpd c) (rightOpd c)) }
+      ops := Op.all.map (fun op => oper c op (leftOpd c) (rightOpd c)),
+      directCalls := Op.all.map (fun op => dunderLog c op (leftOpd c) (rightOpd c)),
+      opCalls := Op.all.map (fun op => operLog c op (leftOpd c) (rightOpd c)) }
 
 end Attrs.C19.Cmp
